@@ -357,17 +357,36 @@ func delivers(um func([]byte, interface{}) error, doc, tok []byte) (ok bool) {
 
 // decodeAll decodes tok directly and — when a library delivers it — through encoding/json and jsoniter; all must agree.
 func decodeAll(t *jsType, tok []byte) string {
-	d := safely(func() (string, error) { return t.direct(append([]byte{}, tok...)) })
+	directText := ""
+	d := safely(func() (string, error) {
+		v, err := t.direct(append([]byte{}, tok...))
+		if err != nil {
+			directText = err.Error()
+		}
+		return v, err
+	})
+	// a library may wrap the error of UnmarshalJSON in text of its own: an error that carries the direct error's
+	// text verbatim is the same error, however the wrapper is worded
+	viaLib := func(um func([]byte, interface{}) error, doc []byte) string {
+		wrapped := false
+		r := safely(func() (string, error) {
+			v, err := t.viaLib(um, doc)
+			wrapped = err != nil && directText != "" && strings.Contains(err.Error(), directText)
+			return v, err
+		})
+		if wrapped && strings.HasPrefix(d, "err:") {
+			return d
+		}
+		return r
+	}
 	if libToken(tok) {
 		doc := append(append([]byte(`{"V":`), tok...), '}')
 		j, it := d, d
 		if delivers(json.Unmarshal, doc, tok) {
-			j = safely(func() (string, error) { return t.viaLib(json.Unmarshal, doc) })
+			j = viaLib(json.Unmarshal, doc)
 		}
 		if delivers(jsoniter.ConfigCompatibleWithStandardLibrary.Unmarshal, doc, tok) {
-			it = safely(func() (string, error) {
-				return t.viaLib(jsoniter.ConfigCompatibleWithStandardLibrary.Unmarshal, doc)
-			})
+			it = viaLib(jsoniter.ConfigCompatibleWithStandardLibrary.Unmarshal, doc)
 		}
 		if j != d || it != d {
 			return fmt.Sprintf("path-mismatch direct=%q encoding/json=%q jsoniter=%q", d, j, it)
@@ -527,6 +546,31 @@ func runLine(line string) (string, []corr.Hit) {
 			return "bad-op", nil
 		}
 		return runSQLRt(f[1], f[2])
+	case op == "sql.rtt":
+		if len(f) != 5 {
+			return "bad-op", nil
+		}
+		return runSQLRtt(f[1], f[2], f[3], f[4])
+	case op == "ntime.rtt" || op == "utime.rtt":
+		if len(f) != 4 {
+			return "bad-op", nil
+		}
+		return runTimeRt(op, f[1], f[2], f[3])
+	case op == "dur.toml":
+		if len(f) != 2 {
+			return "bad-op", nil
+		}
+		return runDurToml(f[1])
+	case op == "byte.fromstr":
+		if len(f) != 2 {
+			return "bad-op", nil
+		}
+		return runByteFromStr(f[1])
+	case op == "b64.scankind":
+		if len(f) != 2 {
+			return "bad-op", nil
+		}
+		return runB64ScanKind(f[1])
 	}
 	if len(f) != 2 {
 		return "bad-op", nil
@@ -564,9 +608,132 @@ func runLine(line string) (string, []corr.Hit) {
 		if res != want {
 			hits = append(hits, corr.Hit{Key: "C20:" + t.goName + ":roundtrip", What: fmt.Sprintf("value %s marshals to %s, which unmarshals to `%s`", f[1], d, res)})
 		}
-		return "enc=" + tokArg(d) + " dec=" + res, hits
+		out := "enc=" + tokArg(d) + " dec=" + res
+		switch t.name {
+		case "dur":
+			// the two other exported entry points of Duration: the getter and the TOML form
+			x, _ := parseI64(f[1])
+			get := int64(tex.Duration(x).Duration())
+			toml := safely(func() (string, error) {
+				var v tex.Duration
+				err := v.UnmarshalTOML(time.Duration(x).String())
+				return strconv.FormatInt(int64(v), 10), err
+			})
+			if get != x {
+				hits = append(hits, corr.Hit{Key: "C20:Duration.Duration:getter-changes-value", What: fmt.Sprintf("Duration(%d).Duration() = %d", x, get)})
+			}
+			if toml != "ok "+f[1] {
+				hits = append(hits, corr.Hit{Key: "C20:Duration.UnmarshalTOML:roundtrip", What: fmt.Sprintf("Duration %d prints as %q, which UnmarshalTOML reads as `%s`", x, time.Duration(x).String(), toml)})
+			}
+			out += " get=" + strconv.FormatInt(get, 10) + " toml=" + toml
+		case "byte":
+			var l []byte
+			if f[1] != "-" {
+				for _, p := range strings.Split(f[1], ",") {
+					x, _ := parseU64(p)
+					l = append(l, byte(x))
+				}
+			}
+			str := tex.JsByte(l).ToString()
+			js := string(tex.JsByte(l).ToJS())
+			fs := safely(func() (string, error) {
+				var v tex.JsByte
+				err := v.FromString(str)
+				return fmtBytes(v), err
+			})
+			if str != js {
+				hits = append(hits, corr.Hit{Key: "C20:JsByte.ToString:differs-from-ToJS", What: fmt.Sprintf("%v: ToString %q, ToJS %q", l, str, js)})
+			}
+			if fs != want {
+				hits = append(hits, corr.Hit{Key: "C20:JsByte.ToString:roundtrip", What: fmt.Sprintf("%v: ToString %q, which FromString reads as `%s`", l, str, fs)})
+			}
+			out += " str=" + tokArg([]byte(str)) + " fs=" + fs
+		}
+		return out, hits
 	}
 	return "bad-op", nil
+}
+
+// runDurToml: Duration.UnmarshalTOML on a string (t:<tok>) or on a value of another kind (k:<kind>).
+func runDurToml(arg string) (string, []corr.Hit) {
+	var in interface{}
+	isString := false
+	switch arg {
+	case "k:int":
+		in = int64(5)
+	case "k:bytes":
+		in = []byte("5s")
+	case "k:nil":
+		in = nil
+	case "k:float":
+		in = 1.5
+	default:
+		tok, ok := unescapeTok(arg)
+		if !ok {
+			return "bad-op", nil
+		}
+		in, isString = string(tok), true
+	}
+	var got tex.Duration
+	res := safely(func() (string, error) {
+		err := got.UnmarshalTOML(in)
+		return strconv.FormatInt(int64(got), 10), err
+	})
+	var hits []corr.Hit
+	if strings.HasPrefix(res, "ok ") {
+		miss := !isString
+		if isString {
+			d, err := time.ParseDuration(in.(string))
+			miss = err != nil || int64(d) != int64(got)
+		}
+		if miss {
+			hits = append(hits, corr.Hit{Key: "C20:Duration.UnmarshalTOML:mis-decode", What: fmt.Sprintf("UnmarshalTOML(%T %q) returned nil and %d", in, in, int64(got))})
+		}
+	}
+	return res, hits
+}
+
+// runByteFromStr: JsByte.FromString called directly (no quotes involved).
+func runByteFromStr(arg string) (string, []corr.Hit) {
+	tok, ok := unescapeTok(arg)
+	if !ok {
+		return "bad-op", nil
+	}
+	res := safely(func() (string, error) {
+		var v tex.JsByte
+		err := v.FromString(string(tok))
+		return fmtBytes(v), err
+	})
+	// same reference as the JSON form of a quoted token
+	quoted := append(append([]byte{'"'}, tok...), '"')
+	return res, monitorDecode(jsTypeOf("byte"), quoted, res)
+}
+
+// runB64ScanKind: Base64Bytes.Scan of a value that is neither []byte nor string must fail.
+func runB64ScanKind(kind string) (string, []corr.Hit) {
+	var in interface{}
+	switch kind {
+	case "int":
+		in = int64(5)
+	case "nil":
+		in = nil
+	case "float":
+		in = 1.5
+	case "time":
+		in = time.Unix(5, 0)
+	default:
+		return "bad-op", nil
+	}
+	res := safely(func() (string, error) {
+		var v tex.Base64Bytes
+		err := v.Scan(in)
+		return "x:" + hex.EncodeToString(v), err
+	})
+	var hits []corr.Hit
+	if strings.HasPrefix(res, "ok ") {
+		hits = append(hits, corr.Hit{Key: "C20:Base64Bytes.Scan:unsupported-type-accepted", What: fmt.Sprintf("Scan(%T) returned nil", in)})
+	}
+	return res, hits
 }
 
 func runHex(op string, v2, signed bool, arg string) (string, []corr.Hit) {
@@ -684,7 +851,114 @@ func runB64(op, arg string) (string, []corr.Hit) {
 	return "enc=" + tokArg([]byte(enc)) + " dec=" + res, hits
 }
 
-func sqlValue(ty, v string) (interface{}, bool) {
+// ---------------------------------------------------------------- instants
+
+const zeroTimeUnix = -62135596800
+
+func showTime(t time.Time) string {
+	return strconv.FormatInt(t.Unix(), 10) + ":" + strconv.Itoa(t.Nanosecond())
+}
+
+func parseNsec(s string) (int, bool) {
+	n, ok := parseU64(s)
+	return int(n), ok && n < 1000000000
+}
+
+// buildTime makes a genuine time.Time the way `how` says: unix = time.Unix(sec,nsec), zero = time.Time{}, date<Y> = time.Date(Y,1,1,…,UTC).
+func buildTime(secS, nsecS, how string) (time.Time, bool) {
+	sec, ok1 := parseI64(secS)
+	nsec, ok2 := parseNsec(nsecS)
+	if !ok1 || !ok2 {
+		return time.Time{}, false
+	}
+	switch {
+	case how == "unix":
+		return time.Unix(sec, int64(nsec)), true
+	case how == "zero":
+		return time.Time{}, sec == zeroTimeUnix && nsec == 0
+	case strings.HasPrefix(how, "date"):
+		y, ok := parseU64(how[4:])
+		if !ok || nsec != 0 || y > 292277026000 {
+			return time.Time{}, false
+		}
+		t := time.Date(int(y), 1, 1, 0, 0, 0, 0, time.UTC)
+		return t, t.Unix() == sec
+	}
+	return time.Time{}, false
+}
+
+// fitsNano: the instant is representable as int64 nanoseconds since 1970 (math/big, independent of the model).
+func fitsNano(t time.Time) bool {
+	v := new(big.Int).Mul(big.NewInt(t.Unix()), big.NewInt(1000000000))
+	v.Add(v, big.NewInt(int64(t.Nanosecond())))
+	return v.IsInt64()
+}
+
+// runTimeRt: marshal a genuine time.Time through JsNanoTime / JsUnixTime, unmarshal, compare instants.
+func runTimeRt(op, secS, nsecS, how string) (string, []corr.Hit) {
+	t, ok := buildTime(secS, nsecS, how)
+	if !ok {
+		return "bad-op", nil
+	}
+	var enc, lib []byte
+	var dec func(b []byte) (time.Time, error)
+	var viaLib func(um func([]byte, interface{}) error, doc []byte) (time.Time, error)
+	if op == "ntime.rtt" {
+		enc, _ = tex.JsNanoTime(t).MarshalJSON()
+		lib = libField(json.Marshal(struct{ V tex.JsNanoTime }{tex.JsNanoTime(t)}))
+		dec = func(b []byte) (time.Time, error) { var v tex.JsNanoTime; err := v.UnmarshalJSON(b); return time.Time(v), err }
+		viaLib = func(um func([]byte, interface{}) error, doc []byte) (time.Time, error) {
+			var s struct{ V tex.JsNanoTime }
+			err := um(doc, &s)
+			return time.Time(s.V), err
+		}
+	} else {
+		enc, _ = tex.JsUnixTime(t).MarshalJSON()
+		lib = libField(json.Marshal(struct{ V tex.JsUnixTime }{tex.JsUnixTime(t)}))
+		dec = func(b []byte) (time.Time, error) { var v tex.JsUnixTime; err := v.UnmarshalJSON(b); return time.Time(v), err }
+		viaLib = func(um func([]byte, interface{}) error, doc []byte) (time.Time, error) {
+			var s struct{ V tex.JsUnixTime }
+			err := um(doc, &s)
+			return time.Time(s.V), err
+		}
+	}
+	if !bytes.Equal(enc, lib) {
+		return fmt.Sprintf("marshal-path-mismatch direct=%q encoding/json=%q", enc, lib), nil
+	}
+	var got time.Time
+	res := safely(func() (string, error) {
+		v, err := dec(append([]byte{}, enc...))
+		got = v
+		return showTime(v), err
+	})
+	doc := append(append([]byte(`{"V":`), enc...), '}')
+	for _, um := range []func([]byte, interface{}) error{json.Unmarshal, jsoniter.ConfigCompatibleWithStandardLibrary.Unmarshal} {
+		r2 := safely(func() (string, error) { v, err := viaLib(um, doc); return showTime(v), err })
+		if r2 != res {
+			return fmt.Sprintf("path-mismatch direct=%q library=%q", res, r2), nil
+		}
+	}
+	var hits []corr.Hit
+	name := "JsNanoTime"
+	want := t
+	if op == "utime.rtt" {
+		name = "JsUnixTime"
+		want = time.Unix(t.Unix(), 0) // second-resolution format: the nanoseconds are not part of the value
+	}
+	if !strings.HasPrefix(res, "ok ") || !got.Equal(want) {
+		key := "C20:" + name + ":roundtrip"
+		if op == "ntime.rtt" && !fitsNano(t) {
+			key = "C20:JsNanoTime:time-outside-unixnano-range-roundtrip"
+		}
+		hits = append(hits, corr.Hit{Key: key, What: fmt.Sprintf("%s(%s) marshals to %s, which unmarshals to `%s` (%s)", name, t.UTC().Format(time.RFC3339Nano), enc, res, got.UTC().Format(time.RFC3339Nano))})
+	}
+	return "enc=" + tokArg(enc) + " dec=" + res, hits
+}
+
+// ---------------------------------------------------------------- SQL forms
+
+// sqlValue builds the dynamic value a driver hands to Scan. denotes: the int64 the value stands for (nil if none).
+func sqlValue(ty, v string) (val interface{}, ok bool) {
 	switch ty {
 	case "i32":
 		x, err := strconv.ParseInt(v, 10, 32)
@@ -704,39 +978,88 @@ func sqlValue(ty, v string) (interface{}, bool) {
 	case "uint":
 		x, ok := parseU64(v)
 		return uint(x), ok
-	case "time":
+	case "f64":
 		x, ok := parseI64(v)
-		return time.Unix(x, 0), ok
-	case "other":
-		return "a string", true
+		return float64(x), ok
+	case "bool":
+		return v == "1", v == "0" || v == "1"
+	case "bytes":
+		b, ok := unescapeTok(v)
+		return b, ok
+	case "str":
+		b, ok := unescapeTok(v)
+		return string(b), ok
+	case "time":
+		i := strings.IndexByte(v, ':')
+		if i < 0 {
+			return nil, false
+		}
+		t, ok := buildTime(v[:i], v[i+1:], "unix")
+		return t, ok
+	case "null":
+		return nil, v == "-"
 	}
 	return nil, false
 }
 
-func scanInto(target string, val interface{}) string {
-	return safely(func() (string, error) {
+// sqlDenotes: the integer a driver value stands for, by an independent reading (math/big); ok=false: none.
+func sqlDenotes(val interface{}) (*big.Int, bool) {
+	switch x := val.(type) {
+	case nil:
+		return big.NewInt(0), true
+	case int32:
+		return big.NewInt(int64(x)), true
+	case uint32:
+		return big.NewInt(int64(x)), true
+	case int64:
+		return big.NewInt(x), true
+	case int:
+		return big.NewInt(int64(x)), true
+	case uint64:
+		return new(big.Int).SetUint64(x), true
+	case uint:
+		return new(big.Int).SetUint64(uint64(x)), true
+	case []byte:
+		return denoteCore(x)
+	case string:
+		return denoteCore([]byte(x))
+	}
+	return nil, false
+}
+
+func scanInto(target string, val interface{}) (string, time.Time, int64) {
+	var gt time.Time
+	var gi int64
+	res := safely(func() (string, error) {
 		switch target {
 		case "nano":
 			var s tex.UnixNano2Time
 			err := s.Scan(val)
-			return strconv.FormatInt(time.Time(s).UnixNano(), 10), err
+			gt = time.Time(s)
+			return showTime(gt), err
 		case "unix":
 			var s tex.Unix2Time
 			err := s.Scan(val)
-			return strconv.FormatInt(time.Time(s).Unix(), 10), err
+			gt = time.Time(s)
+			return showTime(gt), err
 		case "stamp":
 			s := tex.UnixStamp(7)
 			err := s.Scan(val)
-			return strconv.FormatInt(int64(s), 10), err
+			gi = int64(s)
+			return strconv.FormatInt(gi, 10), err
 		default:
 			s := tex.SQLTime2Unix(7)
 			err := s.Scan(val)
-			return strconv.FormatInt(int64(s), 10), err
+			gi = int64(s)
+			return strconv.FormatInt(gi, 10), err
 		}
 	})
+	return res, gt, gi
 }
 
 func validTarget(t string) bool { return t == "nano" || t == "unix" || t == "stamp" || t == "t2u" }
+
+var scanTypeName = map[string]string{"nano": "UnixNano2Time", "unix": "Unix2Time", "stamp": "UnixStamp", "t2u": "SQLTime2Unix"}
 
 func runSQLScan(target, ty, v string) (string, []corr.Hit) {
 	if !validTarget(target) {
@@ -746,8 +1069,42 @@ func runSQLScan(target, ty, v string) (string, []corr.Hit) {
 	if !ok {
 		return "bad-op", nil
 	}
-	// the model keeps i32/u32 as unbounded numbers; out-of-width arguments are rejected above
-	return scanInto(target, val), nil
+	res, gt, gi := scanInto(target, val)
+	var hits []corr.Hit
+	if strings.HasPrefix(res, "ok ") {
+		name := scanTypeName[target]
+		if target == "nano" || target == "unix" {
+			d, denotes := sqlDenotes(val)
+			var got *big.Int
+			if target == "nano" {
+				got = new(big.Int).Add(new(big.Int).Mul(big.NewInt(gt.Unix()), big.NewInt(1000000000)), big.NewInt(int64(gt.Nanosecond())))
+			} else {
+				got = big.NewInt(gt.Unix())
+			}
+			switch {
+			case !denotes:
+				hits = append(hits, corr.Hit{Key: "C20:Scan:unsupported-type-yields-epoch", What: fmt.Sprintf("%s.Scan(%T %v) returned nil and the instant %s: the value denotes no integer", name, val, val, showTime(gt))})
+			case d.Cmp(got) != 0 && (ty == "u64" || ty == "uint"):
+				hits = append(hits, corr.Hit{Key: "C20:Scan:uint64-above-maxint64-wraps", What: fmt.Sprintf("%s.Scan(%T %v) returned nil and %s, the value is %s", name, val, val, got, d)})
+			case d.Cmp(got) != 0:
+				hits = append(hits, corr.Hit{Key: "C20:Scan:unsupported-type-yields-epoch", What: fmt.Sprintf("%s.Scan(%T %q) returned nil and %s, the value denotes %s", name, val, val, got, d)})
+			}
+		} else {
+			switch x := val.(type) {
+			case nil:
+				if gi != 7 {
+					hits = append(hits, corr.Hit{Key: "C20:Scan:stamp-null-changes-value", What: fmt.Sprintf("%s.Scan(nil) changed the stamp to %d", name, gi)})
+				}
+			case time.Time:
+				if gi != x.Unix() {
+					hits = append(hits, corr.Hit{Key: "C20:sql-" + target + ":roundtrip", What: fmt.Sprintf("%s.Scan(%s) = %d", name, showTime(x), gi)})
+				}
+			default:
+				hits = append(hits, corr.Hit{Key: "C20:Scan:unsupported-type-yields-epoch", What: fmt.Sprintf("%s.Scan(%T %v) returned nil and left the stamp at %d: the value is not a time", name, val, val, gi)})
+			}
+		}
+	}
+	return res, hits
 }
 
 func runSQLRt(target, v string) (string, []corr.Hit) {
@@ -760,11 +1117,14 @@ func runSQLRt(target, v string) (string, []corr.Hit) {
 	}
 	var dv driver.Value
 	var shown string
+	want := v
 	switch target {
 	case "nano":
 		dv, _ = tex.UnixNano2Time(time.Unix(0, x)).Value()
+		want = showTime(time.Unix(0, x))
 	case "unix":
 		dv, _ = tex.Unix2Time(time.Unix(x, 0)).Value()
+		want = showTime(time.Unix(x, 0))
 	case "stamp":
 		dv, _ = tex.UnixStamp(x).Value()
 	default:
@@ -778,10 +1138,43 @@ func runSQLRt(target, v string) (string, []corr.Hit) {
 	default:
 		shown = fmt.Sprintf("?%T", dv)
 	}
-	res := scanInto(target, dv)
+	res, _, _ := scanInto(target, dv)
 	var hits []corr.Hit
-	if res != "ok "+v || shown != v {
+	if res != "ok "+want || shown != v {
 		hits = append(hits, corr.Hit{Key: "C20:sql-" + target + ":roundtrip", What: fmt.Sprintf("value %s has driver value %s, which scans to `%s`", v, shown, res)})
+	}
+	return "val=" + shown + " scan=" + res, hits
+}
+
+// runSQLRtt: Value() then Scan() on a genuine time.Time.
+func runSQLRtt(target, secS, nsecS, how string) (string, []corr.Hit) {
+	if target != "nano" && target != "unix" {
+		return "bad-op", nil
+	}
+	t, ok := buildTime(secS, nsecS, how)
+	if !ok {
+		return "bad-op", nil
+	}
+	var dv driver.Value
+	want := t
+	if target == "nano" {
+		dv, _ = tex.UnixNano2Time(t).Value()
+	} else {
+		dv, _ = tex.Unix2Time(t).Value()
+		want = time.Unix(t.Unix(), 0)
+	}
+	shown := fmt.Sprintf("?%T", dv)
+	if y, ok := dv.(int64); ok {
+		shown = strconv.FormatInt(y, 10)
+	}
+	res, gt, _ := scanInto(target, dv)
+	var hits []corr.Hit
+	if !strings.HasPrefix(res, "ok ") || !gt.Equal(want) {
+		key := "C20:sql-" + target + ":roundtrip"
+		if target == "nano" && !fitsNano(t) {
+			key = "C20:UnixNano2Time:time-outside-unixnano-range-roundtrip"
+		}
+		hits = append(hits, corr.Hit{Key: key, What: fmt.Sprintf("%s(%s).Value() = %s, which scans to `%s` (%s)", scanTypeName[target], t.UTC().Format(time.RFC3339Nano), shown, res, gt.UTC().Format(time.RFC3339Nano))})
 	}
 	return "val=" + shown + " scan=" + res, hits
 }
